@@ -125,8 +125,8 @@ def run_block_case(ctx, name, factory, passed, points, replay):
 
 
 # ------------------------------------------------------------------ solvers of affine probes
-def random_pcirc(rng, nmax=5):
-    circ = gen.random_circuit(rng, ncomp_max=nmax, ports_max=3, p_link=0.8, p_expose=0.8)
+def random_pcirc(rng, nmax=5, shared_names=True):
+    circ = gen.random_circuit(rng, ncomp_max=nmax, ports_max=3, p_link=0.8, p_expose=0.8, shared_names=shared_names)
     pnames = ["pa", "pb", "pc"][: rng.randint(1, 3)]
     # one default per parameter name (the solver keeps a single default per name: see C05)
     defaults = {nm: Fraction(rng.randint(-4, 4), 4) for nm in pnames}
